@@ -19,3 +19,21 @@ Theorem C09_statement_count_kept : forall S Semi mode_of fmt inner strip_first n
   length (go S Semi mode_of fmt inner strip_first needs_semi fmt_semi fresh_semi move_trailing absorb first l) = length l.
 Proof. exact go_length. Qed.
 Print Assumptions C09_statement_count_kept.
+
+(* the decision itself, regenerated from src/context.rs :: should_format_node on every run: with formatting enabled
+   and no ignore comment a node is formatted iff it lies wholly inside the range, both bounds inclusive *)
+From SV Require FmAst ShouldFormat ShouldFormatProof.
+From SVgen Require ShouldFormat.
+Theorem C09_formatted_iff_wholly_inside_the_range : forall r n,
+  SVgen.ShouldFormat.should_format_node false None (Some r) n = FmAst.FormatNode_Normal <-> SV.ShouldFormat.inside r n = true.
+Proof. exact ShouldFormatProof.formatted_iff_wholly_inside. Qed.
+Print Assumptions C09_formatted_iff_wholly_inside_the_range.
+Theorem C09_range_bounds_are_inclusive : forall a b,
+  SVgen.ShouldFormat.should_format_node false None (Some {| FmAst.start := Some a; FmAst.end_ := Some b |})
+    {| FmAst.start_position := Some {| FmAst.bytes := a |}; FmAst.end_position := Some {| FmAst.bytes := b |} |} = FmAst.FormatNode_Normal.
+Proof. exact ShouldFormatProof.bounds_are_inclusive. Qed.
+Print Assumptions C09_range_bounds_are_inclusive.
+Theorem C09_generated_decision_is_the_specification : forall d l r n,
+  SVgen.ShouldFormat.should_format_node d l r n = SV.ShouldFormat.verdict d l r n.
+Proof. exact ShouldFormatProof.generated_is_spec. Qed.
+Print Assumptions C09_generated_decision_is_the_specification.
